@@ -32,7 +32,32 @@ def one_app(rng, tier, dist, opts=None):
     ref = sc.Ref(app)
     return app, ref
 
+_DIST = {}
+
+def count_cond(line, dist):
+    """the model driver evaluates the theorems' side conditions for every case (Save/CondModel.v: wf_app_b,
+    full_conditions_b, ranked_b; Save/LinesModel.v: good_line_b) and prints them in the fields cond= / cls=;
+    they are counted into the evidence's input distribution (vcheck keeps the dict gen() was given)"""
+    kv = sc.kv_fields(line)
+    c = kv.get("cond", "-")
+    if c == "-":
+        return
+    dist["cases with conditions evaluated"] = dist.get("cases with conditions evaluated", 0) + 1
+    for t in c.split(","):
+        name = {"wf": "wf_app holds", "full": "full_conditions holds", "rk": "dependency edges acyclic (ranked)"}.get(t[:-1], t[:-1])
+        if t.endswith("1"):
+            dist[name] = dist.get(name, 0) + 1
+    cl = kv.get("cls", "-")
+    if "/" in cl:
+        g, t = cl.split("/")
+        dist["saved lines"] = dist.get("saved lines", 0) + int(t)
+        dist["saved lines in good_line"] = dist.get("saved lines in good_line", 0) + int(g)
+        if g == t:
+            dist["cases with every saved line in good_line"] = dist.get("cases with every saved line in good_line", 0) + 1
+
 def gen(rng, tier, dist):
+    global _DIST
+    _DIST = dist
     n = 1500 if tier == "quick" else 20000
     out = list(sc.macro_cases())
     dist["macro-made metadata blocks"] = len(out)
@@ -193,6 +218,7 @@ def canon(case, line):
     f = case.split(" ")
     if line.startswith("CRASH") or line.startswith("BADCASE") or line == "NOOUT":
         return line
+    count_cond(line, _DIST)
     kv = sc.kv_fields(line)
     def sort_dump(d):
         return ",".join(sorted(t for t in d.split(",") if not t.endswith("=NULL"))) or "-"
